@@ -96,6 +96,10 @@ type Exec struct {
 	nvars                 int
 	failWhere             string
 	parseCache            map[string]Value
+	files                 map[*StructObj]*fileModel
+	fileSeq               int
+	waitResult            Value
+	pipeOutput            []*Term
 	inCachedParse         bool
 	solver                *Solver
 	// current path
